@@ -254,7 +254,7 @@ func (c *Config) Derive(adjust curve.Scalar, newChainKey []byte) (*Config, error
 // DeriveBIP32 derives a sharing of the ith child of the consortium signing key.
 //
 // This function uses unhardened derivation, deriving a key without including the
-// underlying private key. This function will panic if i ⩾ 2³¹, since that indicates
+// underlying private key. This function returns an error if i ⩾ 2³¹, since that indicates
 // a hardened key.
 //
 // Sometimes, an error will be returned, indicating that this index generates
